@@ -799,6 +799,117 @@ Proof.
   intros. cbn [run_ops]. rewrite run_ops_fakes. reflexivity.
 Qed.
 
+(* ------------------------------------------------------------------ names reach the e-mail, in any spelling *)
+
+(* The Faker calls and random draws of a step leave local_vars alone; the step then pushes ONE
+   binding, under the canonical (lower-case, underscore-free) form of the spelling that was used —
+   whichever way the recipe asked for the value (block `fake: X`, dotted `fake.X:`, formula
+   `${{fake.X}}`: all of them are this step). *)
+Lemma fake_email_lv y m s e s' : fake_email y m s = Ok (e, s') -> s_lv s' = s_lv s.
+Proof.
+  unfold fake_email. destruct (names_for m (s_lv s)) as [[f l]|].
+  - destruct (draw n_templates s) as [[t s1]|] eqn:D1; cbn [bind]; [|discriminate].
+    destruct (call "safe_domain_name" s1) as [[dom s2]|] eqn:C1; cbn [bind]; [|discriminate].
+    destruct (draw n_years s2) as [[yy s3]|] eqn:D2; cbn [bind]; [|discriminate].
+    destruct (email_matching f l t (y - 80 + yy) dom) as [e0|]; cbn [bind]; [|discriminate].
+    intros H; inversion H; subst.
+    apply draw_inv in D1 as (_ & L1 & _). apply call_inv in C1 as (_ & L2 & _).
+    apply draw_inv in D2 as (_ & L3 & _). congruence.
+  - intros C. apply call_inv in C as (_ & L & _). exact L.
+Qed.
+
+Lemma fake_user_name_lv m s u s' : fake_user_name m s = Ok (u, s') -> s_lv s' = s_lv s.
+Proof.
+  unfold fake_user_name.
+  destruct (call "hostname" s) as [[host s1]|] eqn:C0; cbn [bind]; [|discriminate].
+  apply call_inv in C0 as (_ & L0 & _).
+  destruct (names_for m (s_lv s)).
+  - destruct (call "uuid4" s1) as [[uuid s2]|] eqn:C1; cbn [bind]; [|discriminate].
+    apply call_inv in C1 as (_ & L1 & _). intros H; inversion H; subst. congruence.
+  - destruct (call "first_name" s1) as [[ff s2]|] eqn:C1; cbn [bind]; [|discriminate].
+    destruct (call "last_name" s2) as [[fl s3]|] eqn:C2; cbn [bind]; [|discriminate].
+    destruct (call "uuid4" s3) as [[uuid s4]|] eqn:C3; cbn [bind]; [|discriminate].
+    apply call_inv in C1 as (_ & L1 & _). apply call_inv in C2 as (_ & L2 & _).
+    apply call_inv in C3 as (_ & L3 & _). intros H; inversion H; subst. congruence.
+Qed.
+
+Theorem fake_step_lv :
+  forall tbl ni this_year q matching s v s',
+    fake_step tbl ni this_year q matching s = Ok (v, s') -> s_lv s' = (canon q, v) :: s_lv s.
+Proof.
+  intros tbl ni y q m s v s'. unfold fake_step. destruct (negb (ascii_only q)); [discriminate|].
+  destruct (get_fake tbl ni q) as [[src n]|]; [|discriminate].
+  match goal with |- bind ?X _ = _ -> _ => destruct X as [[v1 s1]|] eqn:E end; cbn [bind]; [|discriminate].
+  intros H; inversion H; subst. cbn [s_lv]. f_equal.
+  destruct src.
+  - apply call_inv in E as (_ & L & _). exact L.
+  - destruct (String.eqb n "email"); [eapply fake_email_lv; eauto|].
+    destruct (String.eqb n "user_name"); [eapply fake_user_name_lv; eauto|discriminate].
+Qed.
+
+(* further fakes of the same template that are not spellings of [k] keep the binding of [k] *)
+Lemma run_fakes_keeps tbl ni y k fields :
+  (forall q m, In (q, m) fields -> canon q <> k) ->
+  forall s vs s', run_fakes tbl ni y fields s = Ok (vs, s') -> assoc k (s_lv s') = assoc k (s_lv s).
+Proof.
+  induction fields as [|[q m] fields IH]; intros HN s vs s'; cbn [run_fakes].
+  - intros H; inversion H; subst. reflexivity.
+  - destruct (fake_step tbl ni y q m s) as [[v s1]|] eqn:E; cbn [bind]; [|discriminate].
+    destruct (run_fakes tbl ni y fields s1) as [[ws s2]|] eqn:R; cbn [bind]; [|discriminate].
+    intros H; inversion H; subst.
+    rewrite (IH (fun q' m' I => HN q' m' (or_intror I)) _ _ _ R).
+    rewrite (fake_step_lv _ _ _ _ _ _ _ _ E). cbn [assoc].
+    destruct (String.eqb k (canon q)) eqn:K; [|reflexivity].
+    apply String.eqb_eq in K. exfalso. apply (HN q m); [left; reflexivity|]. auto.
+Qed.
+
+(* The clause "built from the names generated earlier in the row", for every spelling and every
+   way of asking: a first and a last name asked for in ANY spellings [q1] [q2] (what they have in
+   common is the canonical form), then any fakes that are not names, then the e-mail. *)
+Theorem row_names_reach_contact :
+  forall tbl ni y q1 m1 q2 m2 mid s v1 s1 v2 s2 vs s3,
+    canon q1 = "firstname"%string -> canon q2 = "lastname"%string ->
+    (forall q m, In (q, m) mid -> canon q <> "firstname"%string /\ canon q <> "lastname"%string) ->
+    fake_step tbl ni y q1 m1 s = Ok (v1, s1) ->
+    fake_step tbl ni y q2 m2 s1 = Ok (v2, s2) ->
+    run_fakes tbl ni y mid s2 = Ok (vs, s3) ->
+    assoc "firstname" (s_lv s3) = Some v1 /\ assoc "lastname" (s_lv s3) = Some v2.
+Proof.
+  intros tbl ni y q1 m1 q2 m2 mid s v1 s1 v2 s2 vs s3 C1 C2 HN E1 E2 R.
+  rewrite (run_fakes_keeps tbl ni y "firstname" mid (fun q m I => proj1 (HN q m I)) _ _ _ R).
+  rewrite (run_fakes_keeps tbl ni y "lastname" mid (fun q m I => proj2 (HN q m I)) _ _ _ R).
+  rewrite (fake_step_lv _ _ _ _ _ _ _ _ E2), (fake_step_lv _ _ _ _ _ _ _ _ E1), C1, C2.
+  cbn [assoc]. split; reflexivity.
+Qed.
+
+Theorem row_email_from_names_any_spelling :
+  forall tbl ni y q1 m1 q2 m2 mid s v1 s1 v2 s2 vs s3 e s4,
+    canon q1 = "firstname"%string -> canon q2 = "lastname"%string ->
+    (forall q m, In (q, m) mid -> canon q <> "firstname"%string /\ canon q <> "lastname"%string) ->
+    fake_step tbl ni y q1 m1 s = Ok (v1, s1) ->
+    fake_step tbl ni y q2 m2 s1 = Ok (v2, s2) ->
+    run_fakes tbl ni y mid s2 = Ok (vs, s3) ->
+    isascii v1 = true -> isascii v2 = true ->
+    filter isalnum v1 <> [] -> filter isalnum v2 <> [] ->
+    fake_email y true s3 = Ok (e, s4) ->
+    exists t yy dom, 0 <= t < n_templates /\ 0 <= yy < n_years /\
+      In ("safe_domain_name"%string, dom) (s_flog s3) /\
+      email_matching (filter isalnum v1) (filter isalnum v2) t (y - 80 + yy) dom = Ok e.
+Proof.
+  intros tbl ni y q1 m1 q2 m2 mid s v1 s1 v2 s2 vs s3 e s4 C1 C2 HN E1 E2 R A1 A2 N1 N2.
+  destruct (row_names_reach_contact _ _ _ _ _ _ _ _ _ _ _ _ _ _ _ C1 C2 HN E1 E2 R) as [F L].
+  unfold fake_email. rewrite (names_for_intro _ _ _ F L A1 A2 N1 N2).
+  destruct (draw n_templates s3) as [[t s5]|] eqn:D1; cbn [bind]; [|discriminate].
+  destruct (call "safe_domain_name" s5) as [[dom s6]|] eqn:K1; cbn [bind]; [|discriminate].
+  destruct (draw n_years s6) as [[yy s7]|] eqn:D2; cbn [bind]; [|discriminate].
+  destruct (email_matching (filter isalnum v1) (filter isalnum v2) t (y - 80 + yy) dom) as [e0|] eqn:EM;
+    cbn [bind]; [|discriminate].
+  intros H; inversion H; subst.
+  apply draw_inv in D1 as (B1 & _ & F1). apply call_inv in K1 as (I1 & _ & _). rewrite F1 in I1.
+  apply draw_inv in D2 as (B2 & _ & _).
+  exists t, yy, dom. destruct B1, B2. splits; auto.
+Qed.
+
 (* ------------------------------------------------------------------ regression / residue *)
 
 (* values Faker produced for locale en_TH (corpus/C18/k1_uuid_truncated_away.json): before the
